@@ -3,7 +3,7 @@ use crate::rng::Rng;
 use yata::core::Candle;
 
 pub const CLASSES: &[&str] = &[
-	"alphabet", "zeros", "walk", "noise", "flat_regime", "scale_jump", "monotone", "spikes", "plateaus", "impulse", "tiny",
+	"alphabet", "zeros", "walk", "noise", "flat_regime", "scale_jump", "monotone", "spikes", "plateaus", "impulse", "tiny", "episodes",
 ];
 
 /// a value stream of one class
@@ -103,6 +103,22 @@ pub fn stream(rng: &mut Rng, len: usize, class: &str) -> Vec<f64> {
 				v.push(if i < prefix { 100.0 + x } else { s * x });
 			}
 		}
+		// bursts of log-normal moves of about a third of the level on a two-decimal grid, each followed by a flat stretch:
+		// every burst leaves fresh rounding residue in running sums (the regime that exposed Vidya's unbounded |CMO|)
+		"episodes" => {
+			let mut x = (100.0 * (0.5 + rng.unit()) * 100.0).round() / 100.0;
+			let burst = 6 + rng.below(14) as usize;
+			let flat = 4 + rng.below(30) as usize;
+			for i in 0..len {
+				if i % (burst + flat) < burst {
+					if !(1.0..=1.0e4).contains(&x) {
+						x = 100.0 * (0.5 + rng.unit());
+					}
+					x = ((x * (0.35 * rng.gauss()).exp()).max(0.05) * 100.0).round() / 100.0;
+				}
+				v.push(x);
+			}
+		}
 		// a single unit impulse on a zero background: the outputs are the weight profile
 		"impulse" => {
 			let at = rng.below(len.max(1) as u64 / 3 + 1) as usize;
@@ -143,7 +159,7 @@ pub fn positive(rng: &mut Rng, len: usize, class: &str) -> Vec<f64> {
 	s.into_iter().map(|x| x + shift).collect()
 }
 
-pub const CANDLE_CLASSES: &[&str] = &["walk", "flat_regime", "plateaus", "alphabet", "noise_pos", "spikes", "monotone", "ticks"];
+pub const CANDLE_CLASSES: &[&str] = &["walk", "flat_regime", "plateaus", "alphabet", "noise_pos", "spikes", "monotone", "ticks", "episodes"];
 
 /// a stream of valid candles (low <= open,close <= high, positive prices, volume >= 0)
 pub fn candles(rng: &mut Rng, len: usize, class: &str) -> Vec<Candle> {
